@@ -252,7 +252,7 @@ fn main() {
             }
             json!({"diagrams": diagrams, "changed_by": counts})
         }
-        "tograph" | "circops" | "eqcheck" | "extract" => {
+        "tograph" | "circops" | "eqcheck" | "extract" | "xsteps" => {
             // --enum n,maxlen,<alphabet>   exhaustive;  --random N --nq a..b --len a..b   seeded random
             let mut ncirc = 0usize;
             let modes: Vec<&str> = vec!["plain", "simp", "postsel"];
@@ -284,6 +284,8 @@ fn main() {
                 count += 1;
                 if engine == "tograph" {
                     eng_circ::record_tograph(&cj, tr, &modes);
+                } else if engine == "xsteps" {
+                    eng_circ::record_xsteps(&cj, tr, thorough, count);
                 } else if engine == "extract" {
                     eng_circ::record_extract(&cj, tr, thorough);
                     // the CLI reads QASM, and the QASM front end does not declare the pyzx-specific `pp` gate
